@@ -543,10 +543,14 @@ class RaggedArray(IndexableArray, np.lib.mixins.NDArrayOperatorsMixin):
         return ra - offsets[:, None]
 
     def _row_accumulate(self, operator, dtype=None):
-        starts = self.ravel()[self._shape.starts]
+        if self.size == 0:
+            return np.empty_like(self)
+        # empty rows get an (unused) offset taken from a valid position
+        start_idx = np.minimum(self._shape.starts, self.size - 1)
+        starts = self.ravel()[start_idx]
         cm = operator.accumulate(self.ravel(), dtype=dtype)
         offsets = INVERSE_FUNCS[operator][0](
-            starts, cm[self._shape.starts]
+            starts, cm[start_idx]
         )  # TODO: This is the inverse
         ra = self.__class__(cm, self._shape)
         return INVERSE_FUNCS[operator][1](ra, offsets[:, None])
